@@ -448,6 +448,8 @@ impl State {
 
     pub fn flush(&mut self) -> std::io::Result<()> {
         if let Inner::Active(_, ref mut file, _) = self.inner {
+            #[cfg(flexi_logger_verif)]
+            crate::verif_hooks::point("fs:flush", None)?;
             file.flush()
         } else {
             Ok(())
@@ -534,6 +536,8 @@ impl State {
             });
 
         if let Inner::Active(ref mut o_rotation_state, ref mut log_file, ref _path) = self.inner {
+            #[cfg(flexi_logger_verif)]
+            crate::verif_hooks::point("fs:write", Some(_path))?;
             log_file.write_all(buf)?;
 
             if let Some(ref mut rotation_state) = o_rotation_state {
@@ -545,6 +549,8 @@ impl State {
 
     pub fn reopen_outputfile(&mut self) -> Result<(), std::io::Error> {
         if let Inner::Active(_, ref mut file, ref p_path) = self.inner {
+            #[cfg(flexi_logger_verif)]
+            crate::verif_hooks::point("fs:reopen", Some(p_path))?;
             match OpenOptions::new().create(true).append(true).open(p_path) {
                 Ok(f) => {
                     // proved to work on standard windows, linux, mac
@@ -598,6 +604,8 @@ impl State {
             if let Some(ref mut rotation_state) = o_rotation_state {
                 rotation_state.shutdown();
             }
+            #[cfg(flexi_logger_verif)]
+            crate::verif_hooks::point("fs:flush", None).ok();
             writer.flush().ok();
         }
     }
@@ -663,6 +671,8 @@ fn open_log_file(
         self::platform::create_symlink_if_possible(link, &path);
     }
 
+    #[cfg(flexi_logger_verif)]
+    crate::verif_hooks::point("fs:open", Some(&path))?;
     let logfile = OpenOptions::new()
         .write(true)
         .create(true)
@@ -724,6 +734,8 @@ pub(super) fn start_async_fs_writer(
                     match receiver.recv() {
                         Err(_) => break,
                         Ok(mut message) => {
+                            #[cfg(flexi_logger_verif)]
+                            crate::verif_hooks::point("sc:writer_recv", None).ok();
                             let mut state = am_state.lock().unwrap(/* ok */);
                             match message.as_ref() {
                                 ASYNC_FLUSH => {
@@ -809,12 +821,16 @@ mod platform {
     fn unix_create_symlink(link: &Path, logfile: &Path) {
         if std::fs::symlink_metadata(link).is_ok() {
             // remove old symlink before creating a new one
+            #[cfg(flexi_logger_verif)]
+            crate::verif_hooks::point("fs:unlink_link", Some(link)).ok();
             if let Err(e) = std::fs::remove_file(link) {
                 eprint_err(ErrorCode::Symlink, "cannot delete symlink to log file", &e);
             }
         }
 
         // create new symlink
+        #[cfg(flexi_logger_verif)]
+        crate::verif_hooks::point("fs:symlink", Some(link)).ok();
         if let Err(e) = std::os::unix::fs::symlink(logfile, link) {
             eprint_err(ErrorCode::Symlink, "cannot create symlink to logfile", &e);
         }
